@@ -486,10 +486,57 @@ class Installed(object):
             d = VDeque(*a)
             d.sched = sched
             return d
-        for name, val in (('RLock', rlock), ('socket', VSocketModule(net)), ('select', VSelectModule(net)),
-                          ('deque', deque), ('timeit', VTimeit(sched))):
-            self.saved[name] = getattr(C, name)
-            setattr(C, name, val)
+        # The stand-ins are installed wherever connection.py reaches the real thing from, whichever way it spells the
+        # import: `import socket` / `from socket import socket`, `from threading import RLock` / `threading.RLock`, ...
+        import collections as _collections
+        import select as _select
+        import socket as _socket
+        import threading as _threading
+        import timeit as _timeit
+
+        class _Proxy(object):
+            """A module seen through replacements for some of its attributes."""
+
+            def __init__(self, real, repl):
+                self.__dict__['_real'], self.__dict__['_repl'] = real, repl
+
+            def __getattr__(self, a):
+                r = self.__dict__['_repl']
+                return r[a] if a in r else getattr(self.__dict__['_real'], a)
+        standins = {
+            _socket: VSocketModule(net), _select: VSelectModule(net), _timeit: VTimeit(sched),
+            _threading: _Proxy(_threading, {'RLock': rlock, 'Lock': rlock}),
+            _collections: _Proxy(_collections, {'deque': deque}),
+        }
+        found = set()
+        for name, val in list(vars(C).items()):
+            if isinstance(val, type(_socket)) and val in standins:
+                self.saved[name] = val
+                setattr(C, name, standins[val])
+                found.add(val.__name__)
+                continue
+            if not callable(val) or isinstance(val, type(_socket)):
+                continue
+            for real, sub in standins.items():
+                # by identity, so that `from select import select as _sel` is recognised too
+                attr = next((a for a, v in vars(real).items() if v is val), None)
+                if attr is None:
+                    continue
+                try:
+                    rep = getattr(sub, attr)
+                except AttributeError:
+                    continue
+                if rep is val:
+                    continue            # passed through by a proxy (e.g. threading.Thread): leave it alone
+                self.saved[name] = val
+                setattr(C, name, rep)
+                found.add(real.__name__ + '.' + attr)
+                break
+        need = [('lock', {'threading', 'threading.RLock', 'threading.Lock'}), ('socket', {'socket', 'socket.socket'}),
+                ('select', {'select', 'select.select'}), ('queue', {'collections', 'collections.deque'})]
+        missing = [k for k, alts in need if not (alts & found)]
+        if missing:
+            raise RuntimeError('cannot virtualise %s of minecraft.networking.connection (found %s)' % (missing, sorted(found)))
         NT = C.NetworkingThread
         self.saved_nt = {k: NT.__dict__.get(k) for k in ('start', 'join', 'is_alive')}
 
